@@ -665,3 +665,43 @@ def tuples_and_default_arguments(a, b):
     u = f(a, b, z=b)
     return t == (a, 10, 3) and u[1] == b and u[2] == b and len(t) == 3 and t[0] == a and (a, b) == (a, b) \
         and ((a, b) == (b, a)) == (a == b)
+
+
+# --- getattr / hasattr, dict comprehensions, zip over lists of symbolic length ---------------------------------------------------
+@lemma(dict(a=Int(-3, 3)), prop=["ENGINE"])
+def getattr_with_default(a):
+    o = _Base(a)
+    return getattr(o, "x") == a and getattr(o, "missing", 7) == 7 and getattr(o, "kind", None) == "base"
+
+
+@lemma(dict(xs=INTS), prop=["ENGINE"])
+def zip_of_a_list_with_its_image_pairs_by_position(xs):
+    ys = [x + 1 for x in xs]
+    pairs = list(zip(xs, ys))
+    d = {i: p for i, p in enumerate(pairs)}
+    return all(p[1] == p[0] + 1 for p in pairs) and len(pairs) == len(xs) \
+        and all(pairs[i][0] == xs[i] for i in range(len(xs)))
+
+
+@lemma(dict(a=Int(-3, 3), b=Int(-3, 3)), prop=["ENGINE"])
+def dict_comprehension_and_items(a, b):
+    d = {k: v * 2 for k, v in [("p", a), ("q", b)]}
+    ks = [k for k in d]
+    vs = [v for _, v in d.items()]
+    return d["p"] == 2 * a and d["q"] == 2 * b and ks == ["p", "q"] and vs == [2 * a, 2 * b] and list(d.keys()) == ks \
+        and list(d.values()) == vs
+
+
+@lemma(dict(s=Str()), prop=["ENGINE"])
+def constant_string_methods(s):
+    return "Muss".upper() == "MUSS" and "KANN".lower() == "kann" \
+        and (s.upper() == s.upper()) and "abc".startswith("ab") and not "abc".endswith("ab") and ("b" in "abc") and ("d" not in "abc")
+
+
+@lemma(dict(a=Int(-3, 3), flag=Bool()), prop=["ENGINE"])
+def nested_lists_and_aliasing_of_inner_lists(a, flag):
+    inner = [a]
+    outer = [inner, inner]
+    if flag:
+        outer[0].append(a + 1)
+    return len(outer[1]) == (2 if flag else 1) and outer[0] is outer[1] and outer[1][0] == a
